@@ -141,6 +141,18 @@ func TestVerifC18RaceChild(t *testing.T) {
 		fmt.Println("CHILD-OK cold")
 		return
 	}
+	// op mix: scrapes of an exporter that is not registered with a MeterProvider and of one whose provider is shut down
+	// (the early-return paths of Collect; seeded change C18-7 put the pooled buffer back twice there, so that later
+	// overlapping scrapes share one buffer: a data race between scrapes)
+	unregReg := prometheus.NewRegistry()
+	if _, err := New(WithRegisterer(unregReg)); err != nil {
+		fmt.Println("CHILD-FAIL new")
+		return
+	}
+	deadReg := prometheus.NewRegistry()
+	if expD, err := New(WithRegisterer(deadReg)); err == nil {
+		_ = sdkmetric.NewMeterProvider(sdkmetric.WithReader(expD)).Shutdown(ctx)
+	}
 	const writers, scrapers = 4, 3
 	var wg sync.WaitGroup
 	var total atomic.Int64
@@ -183,10 +195,17 @@ func TestVerifC18RaceChild(t *testing.T) {
 					return
 				default:
 				}
+				if n := scrapes.Add(1); n%4 == 0 {
+					if mfs, _ := unregReg.Gather(); len(mfs) != 0 {
+						gerrs.Add(1)
+					}
+					if mfs, _ := deadReg.Gather(); len(mfs) != 0 {
+						gerrs.Add(1)
+					}
+				}
 				if _, err := reg.Gather(); err != nil {
 					gerrs.Add(1)
 				}
-				scrapes.Add(1)
 			}
 		}()
 	}
